@@ -33,7 +33,58 @@ def check_arguments(run, tier, seed):
             if clause == "ArgsUntouched":
                 run.violation(sig, what, rep)
     run.info["save_read_argument_checks"] = m
-    run.traces += n + m
+    # --- read_data on Einstein Toolkit output: every argument shape the reader accepts, including the time coordinate and a
+    # tensor named next to its components; only the caller's objects are examined here (C11 / C12 decide the returned data)
+    k = et_arguments(run)
+    run.info["et_read_argument_checks"] = k
+    run.traces += n + m + k
+
+
+def et_arguments(run):
+    import copy
+    import shutil
+    import tempfile
+    import numpy as np
+    from .. import et_engine as E
+    from .. import gen_et as G
+    import aurel.reading as R
+    n = 0
+    for li, layout in enumerate(E.LAYOUTS):
+        tmp = tempfile.mkdtemp(prefix="vargs_")
+        try:
+            M = (3, 4, 3)
+            G.make_sim(tmp + "/", "sim", [{"lo": 0, "hi": 8, "every": 4}, {"lo": 8, "hi": 16, "every": 4}], M=M, ghost=1,
+                       chunks=E.TWO_CHUNKS[1](M), layout=layout, nlev=2)
+            param = E.sim_param(tmp, "sim")
+            for vars_arg in (["alpha", "t"], ["alpha", "t", "betaup3"], ["betaup3", "betax"], [], ["betay"]):
+                for it_arg in ([8, 4], np.array([0, 4, 8, 12]), [4.0]):
+                    for split in (True, False):
+                        for extra in ({}, {"rl": 1}, {"restart": 0}):
+                            if "restart" in extra and max(it_arg) > 8:
+                                continue
+                            kw = dict(it=it_arg, vars=vars_arg, split_per_it=split, verbose=False, skip_last=False, **extra)
+                            snap = copy.deepcopy(kw)
+                            psnap = copy.deepcopy(param)
+                            try:
+                                R.read_data(param, **kw)
+                            except Exception:
+                                pass
+                            n += 1
+                            same = all((np.array_equal(kw[a], snap[a]) and type(kw[a]) is type(snap[a])) for a in snap)
+                            if not same or param != psnap:
+                                changed = [a for a in snap if not (np.array_equal(kw[a], snap[a]) and type(kw[a]) is type(snap[a]))]
+                                if param != psnap:
+                                    changed.append("param")
+                                run.violation({"clause": "ArgsUntouched", "call": "read_data (Einstein Toolkit output)", "arg": changed[0]},
+                                              f"read_data(it={snap['it']!r}, vars={snap['vars']!r}, split_per_it={split}, {extra}) on a "
+                                              f"{'-'.join(layout)} simulation modified its caller's argument(s) {changed}: "
+                                              f"{ {a: (snap[a], kw[a]) for a in changed if a != 'param'} }", {"layout": layout, "vars": snap["vars"]})
+                                kw.update(copy.deepcopy(snap))
+                                param.clear()
+                                param.update(psnap)
+        finally:
+            shutil.rmtree(tmp, ignore_errors=True)
+    return n
 
 
 def replay(r):
